@@ -170,18 +170,25 @@ def gen_e1w(rng, cid):
 
 # ----------------------------------------------------------------------------- E1 generator, C03x
 def gen_e1x(rng, cid):
-    """life cycle of the schedule_from operation state: the three activities `start`, completion of the predecessor
+    """life cycle of the schedule_from / let_value / let_error operation state (let kinds: `sched_<ch> v` completes
+    the successor sender the user function returned): the three activities `start`, completion of the predecessor
     (any channel) and completion of the scheduler (any channel) on own threads, sharing threads, or all on one
     thread in any program order (a completion requested before its operation state is started is delivered inline
     inside that start: predecessor inline in start(), scheduler inline in start(*scheduler_op_state)); with three
     threads the scheduler may complete on the target thread while the predecessor's thread is still inside
     start(*scheduler_op_state) (preemption point sf.armed); two thirds with a self-deleting operation state in
     guarded memory (life=1)"""
+    kind = rng.weighted([('schedule_from', 5), ('let_value', 4), ('let_error', 2)])
     seed = rng.below(1 << 30)
     strat = rng.weighted([(0, 5), (1, 3), (2, 2)])
     life = ' life=1' if rng.below(3) != 0 else ''
-    pch = rng.weighted([('value', 7), ('error', 2), ('stopped', 1)])
+    pch = rng.weighted([('value', 7), ('error', 2), ('stopped', 1)] if kind != 'let_error' else [('value', 2), ('error', 7), ('stopped', 1)])
     sch = rng.weighted([('value', 5), ('error', 3), ('stopped', 2)])
+    # let kinds: the user function throws / (let_value) storing the predecessor's value throws -> set_error
+    if kind != 'schedule_from' and rng.below(6) == 0:
+        life += ' fthrow=1'
+    elif kind == 'let_value' and rng.below(8) == 0:
+        life += ' sthrow=1'
     ops = ['start', f'complete_{pch} 0 {1 + rng.below(9)}', f'sched_{sch} {1 + rng.below(9)}']
     if rng.below(12) == 0:
         ops.pop(1 + rng.below(2))          # the predecessor or the scheduler never completes
@@ -199,7 +206,7 @@ def gen_e1x(rng, cid):
     for j in range(len(progs) - 1, 0, -1):
         k2 = rng.below(j + 1)
         progs[j], progs[k2] = progs[k2], progs[j]
-    lines = [f'case {cid} kind=schedule_from seed={seed} strat={strat}{life}']
+    lines = [f'case {cid} kind={kind} seed={seed} strat={strat}{life}']
     for t, pr in enumerate(progs):
         lines.append(f'thread {t}: ' + ' ; '.join(pr) + ' ;')
     lines.append('endcase')
@@ -585,7 +592,7 @@ def main():
             for i in range(3000 if tr == 'thorough' else 250):
                 e1_cases.append(gen_e1w(rng, f'w{base_seed}n{i}'))
             # C03x (added after everything else: the cases above are unchanged): life cycle of schedule_from
-            for i in range(3000 if tr == 'thorough' else 250):
+            for i in range(4000 if tr == 'thorough' else 400):
                 e1_cases.append(gen_e1x(rng, f'x{base_seed}s{i}'))
 
     def run_static(e0s, tag):
